@@ -39,6 +39,10 @@ def hp_fields(h):
 
 
 def hp_seconds(h):
+    if abs(h) >= 8192:
+        # a double holds fewer than 12 decimals from 8192 on: this reader (and the notation) is not defined there;
+        # the properties stop at 720 deg (validated independently up to 8191 deg)
+        raise HarnessError("angle_ref.hp_seconds is only defined below 8192 degrees (got %r)" % (h,))
     neg, d, m, s = hp_fields(h)
     if m >= 60 or s >= 60:
         raise InvalidHP("HP value %r has fields %d deg %d min %s sec" % (h, d, m, float(s)))
